@@ -293,13 +293,14 @@ def MkFrame (s s' : St) : Prop :=
 theorem MkFrame.refl (s : St) : MkFrame s s := ⟨rfl, rfl, rfl, rfl, rfl, rfl, rfl⟩
 
 /-- functor specs whose construction has no side effect on the state: everything but `make_slot()` of a
-    signal (marks the signal object) and the owning functors (take over a trackable / scoped connection) -/
+    signal (marks the signal object) and the owning functors (take over a trackable / scoped connection /
+    signal object) -/
 def plainSpec : FSpec → Bool
-  | .fwd _ | .ownT _ _ | .ownK _ _ => false
+  | .fwd _ | .ownT _ _ | .ownK _ _ | .ownG _ _ => false
   | _ => true
 
 def ownSpec : FSpec → Bool
-  | .ownT _ _ | .ownK _ _ => true
+  | .ownT _ _ | .ownK _ _ | .ownG _ _ => true
   | _ => false
 
 theorem mkFun_ok (s s0 : St) (b : Bool) (spec : FSpec) (fn : Fun) (h : mkFun s b spec = .ok (fn, s0)) :
@@ -347,10 +348,12 @@ theorem mkFun_ok (s s0 : St) (b : Bool) (spec : FSpec) (fn : Fun) (h : mkFun s b
     · cases h
     · split at h
       · cases h
-      · simp at h
-        obtain ⟨_, rfl⟩ := h
-        exact ⟨⟨rfl, rfl, rfl, rfl, rfl, rfl, rfl⟩, fun hp => by simp [plainSpec] at hp,
-               fun _ => ⟨rfl, rfl, rfl⟩, fun hn => absurd rfl (hn g)⟩
+      · split at h
+        · cases h
+        · simp at h
+          obtain ⟨_, rfl⟩ := h
+          exact ⟨⟨rfl, rfl, rfl, rfl, rfl, rfl, rfl⟩, fun hp => by simp [plainSpec] at hp,
+                 fun _ => ⟨rfl, rfl, rfl⟩, fun hn => absurd rfl (hn g)⟩
   | ownT fid t =>
     simp only [mkFun] at h
     split at h
@@ -367,7 +370,39 @@ theorem mkFun_ok (s s0 : St) (b : Bool) (spec : FSpec) (fn : Fun) (h : mkFun s b
       obtain ⟨_, rfl⟩ := h
       exact ⟨⟨rfl, rfl, rfl, rfl, rfl, rfl, rfl⟩, fun hp => by simp [plainSpec] at hp,
              fun hp => by simp [ownSpec] at hp, fun _ => rfl⟩
+  | ownG fid g =>
+    simp only [mkFun] at h
+    split at h
+    · cases h
+    · split at h
+      · cases h
+      · split at h
+        · cases h
+        · simp [St.fresh] at h
+          obtain ⟨_, rfl⟩ := h
+          exact ⟨⟨rfl, rfl, rfl, rfl, rfl, rfl, rfl⟩, fun hp => by simp [plainSpec] at hp,
+                 fun hp => by simp [ownSpec] at hp, fun _ => rfl⟩
   | bad => simp [mkFun] at h
+
+/-- the owning functor `ownG fid g`: only `ownedG` (one new entry, owner id = the old `next`) and `next` change;
+    every other spec leaves `ownedG` alone -/
+theorem mkFun_ok_ownG (s s0 : St) (b : Bool) (spec : FSpec) (fn : Fun) (h : mkFun s b spec = .ok (fn, s0)) :
+    ((∀ fid g, spec ≠ .ownG fid g) → s0.ownedG = s.ownedG) ∧
+    (∀ fid g, spec = .ownG fid g →
+      s0 = { s with ownedG := (s.next, g) :: s.ownedG, next := s.next + 1 } ∧ fn = .owner fid [] [s.next] ∧
+      (aget s.G g).isSome ∧ s.ownedG.any (fun p => p.2 = g) = false) := by
+  cases spec <;> simp only [mkFun] at h
+  all_goals (repeat' (split at h))
+  all_goals (first | (cases h; done) | skip)
+  all_goals (simp only [St.fresh, Except.ok.injEq, Prod.mk.injEq] at h; obtain ⟨rfl, rfl⟩ := h)
+  all_goals (refine ⟨fun hn => ?_, fun fid' g' he => ?_⟩)
+  all_goals (first | (cases he; done) | skip)
+  all_goals (first | rfl | skip)
+  · exact absurd rfl (hn _ _)
+  · cases he
+    refine ⟨rfl, rfl, ?_, ?_⟩
+    · simp [*]
+    · exact Bool.eq_false_iff.mpr ‹¬ _›
 
 theorem mkS0_eq (s : St) (i : Nat) (ty : String) (hn : aget s.S i = none) (hty : ty = "I" ∨ ty = "V") :
     stepSimple s (.mkS0 i ty) = some ({ s with S := aset s.S i { isVoid := ty = "V", slot := {} } }, "ok") := by
